@@ -136,7 +136,45 @@ def gen_bdat_rx(repo):
     c['RI_BACK'] = one(r'retval\s*=\s*read\(\s*rfd\.fd\s*,\s*buffer\s*,\s*len\s*-\s*(\d+)\s*\)', ri, 'readinput read length')
     if not re.search(r"buffer\[retval\]\s*=\s*'\\0'\s*;", ri):
         raise TranslateError('readinput: terminating NUL not found')
-    out = HEADER % (rel + ', ' + rel2)
+    # ---- argument parser of smtp_bdat
+    m = re.search(r"if\s*\(\s*\(\s*linein\.s\[(\d+)\]\s*<\s*'(.)'\s*\)\s*\|\|\s*\(\s*linein\.s\[(\d+)\]\s*>\s*'(.)'\s*\)\s*\)\s*return\s+EINVAL\s*;\s*errno\s*=\s*0\s*;\s*"
+                  r"unsigned\s+long\s+long\s+chunksize\s*=\s*strtoull\(\s*linein\.s\s*\+\s*(\d+)\s*,\s*&more\s*,\s*(\d+)\s*\)\s*;\s*"
+                  r"if\s*\(\s*\(\s*errno\s*==\s*ERANGE\s*\)\s*\|\|\s*\(\s*\*more\s*&&\s*\(\s*\*more\s*!=\s*'(.)'\s*\)\s*\)\s*\)\s*return\s+EINVAL\s*;\s*"
+                  r'if\s*\(\s*\*more\s*&&\s*strcasecmp\(\s*more\s*\+\s*1\s*,\s*"([^"]*)"\s*\)\s*\)\s*return\s+EINVAL\s*;', fn)
+    if not m or len({m.group(1), m.group(3), m.group(5)}) != 1:
+        raise TranslateError('smtp_bdat: argument parser (digit test, strtoull, blank, strcasecmp "LAST") not recognised')
+    if not re.search(r'if\s*\(\s*!goodrcpt\s*\)\s*\{\s*tarpit\(\)\s*;\s*return\s+netwrite\(\s*"554 [^"]*"\s*\)\s*\?\s*errno\s*:\s*EDONE\s*;\s*\}\s*if\s*\(\s*\(\s*linein\.s\[', fn):
+        raise TranslateError('smtp_bdat: recipient test in front of the argument parser not found')
+    c['BDAT_ARG_OFF'] = m.group(1)
+    c['BDAT_BASE'] = m.group(6)
+    nconst = {'BDAT_DIGIT_LO': ord(m.group(2)), 'BDAT_DIGIT_HI': ord(m.group(4)), 'BDAT_SEP': ord(m.group(7))}
+    lastword = m.group(8)
+    # ---- the dispatcher row and the tests smtploop() makes before calling the handler (the harness re-implements them)
+    rel3 = 'qsmtpd/qsmtpd.c'
+    s3 = strip_comments(read(repo, rel3))
+    row = one(r'_C\(\s*"BDAT"\s*,\s*(0x[0-9a-fA-F]+)\s*,\s*smtp_bdat\s*,\s*(-?\d+)\s*,\s*(\d+)\s*\)', s3, 'commands[] row of BDAT')
+    if int(row[0], 16) != 0x0840 or row[1] != '-1' or row[2] != '5':
+        raise TranslateError('commands[] row of BDAT changed (%r): harness/bdat_rx.c re-implements mask 0x0840, state -1, flags 5' % (row,))
+    nconst['BDAT_MASK'] = int(row[0], 16)
+    c['BDAT_FLAGS'] = row[2]
+    c['BDAT_NAME_LEN'] = str(len('BDAT'))
+    c['RX_CMD_LINE_MAX'] = one(r'if\s*\(\s*!\(\s*commands\[i\]\.flags\s*&\s*2\s*\)\s*&&\s*\(\s*linein\.len\s*>\s*(\d+)\s*\)\s*\)', s3, 'smtploop line length test')
+    for pat, what in [
+        (r'if\s*\(\s*comstate\s*&\s*commands\[i\]\.mask\s*\)', 'mask test'),
+        (r"else\s+if\s*\(\s*\(\s*commands\[i\]\.flags\s*&\s*4\s*\)\s*&&\s*\(\s*linein\.s\[commands\[i\]\.len\]\s*!=\s*' '\s*\)\s*\)\s*\{\s*flagbogus\s*=\s*EINVAL\s*;", 'blank-behind-the-name test'),
+        (r'flagbogus\s*=\s*E2BIG\s*;\s*break\s*;', 'E2BIG for a long line'),
+        (r'\}\s*else\s+flagbogus\s*=\s*1\s*;', 'flagbogus = 1 outside the mask'),
+    ]:
+        if not re.search(pat, s3):
+            raise TranslateError('smtploop: %s not found' % what)
+    rel4 = 'qsmtpd/commands.c'
+    rs = func_body(strip_comments(read(repo, rel4)), 'smtp_rset', rel4)
+    if not re.search(r'if\s*\(\s*comstate\s*==\s*0x0800\s*\)\s*queue_reset\(\)\s*;.*if\s*\(\s*comstate\s*>=\s*0x008\s*\)\s*\{\s*freedata\(\)\s*;\s*current_command->state\s*=\s*\(\s*0x008\s*<<\s*xmitstat\.esmtp\s*\)\s*;\s*\}.*return\s+netwrite\(\s*"250 ', rs, flags=re.S):
+        raise TranslateError('smtp_rset: shape changed (harness/bdat_rx.c re-implements it)')
+    out = HEADER % (rel + ', ' + rel2 + ', ' + rel3 + ', ' + rel4)
+    for k, v in nconst.items():
+        out += 'Definition %s : N := %d%%N.\n' % (k, v)
+    out += 'Definition BDAT_LAST_WORD : list N := %s.\n' % coq_bytes(c_unescape(lastword))
     for k, v in c.items():
         out += 'Definition %s : nat := %s.\n' % (k, v)
     out += 'Definition RX_LINEBUF_MAX : nat := RX_LINEBUF - 1.\n'
